@@ -51,7 +51,11 @@ func revertToManifest(kv *DB, mf *Manifest, idMap map[uint64]struct{}) error {
 		}
 	}
 
-	// 2. Delete files that shouldn't exist.
+	// 2. Delete files that shouldn't exist. A read-only open must not change the
+	// directory, so it leaves them alone (they are not referenced, hence not read).
+	if kv.opt.ReadOnly {
+		return nil
+	}
 	for id := range idMap {
 		if _, ok := mf.Tables[id]; !ok {
 			kv.opt.Debugf("Table file %d not referenced in MANIFEST\n", id)
